@@ -233,6 +233,40 @@ def _check_case(ctx, base, points, makers, base_outs, route="ctor"):
     return True
 
 
+def check_jsx_metadata(ctx, rng):
+    """Metadata nodes among the children of a JSX component (or of a tag inside it) leave no trace in what is written for it."""
+    from ..loader import jsx_mod
+
+    Foo, Bar = jsx_mod.jsx_tag_create("Foo"), jsx_mod.jsx_tag_create("Bar")
+    metas = [lambda: ht.MetadataNode(), lambda: gen.SubMeta(), lambda: ht.HTMLDependency("jd", "1.0", source={"subdir": "a"}, script={"src": "a.js"}),
+             lambda: ht.head_content(ht.tags.title("jt"))]
+
+    def kids(level, with_meta, plan):
+        base = [ht.span("a"), "b", ht.div("c", "d") if level else ht.div("c", Bar("e", ht.tags.i("f")), "d")]
+        if level == 0 and len(base[2].children) and with_meta:
+            base[2] = ht.div(*_mix(["c", Bar(*_mix(["e", ht.tags.i("f")], plan, 2)), "d"], plan, 1))
+        return _mix(base, plan, 0) if with_meta else base
+
+    def _mix(items, plan, slot):
+        out = list(items)
+        for pos, which, sl in plan:
+            if sl == slot:
+                out.insert(min(pos, len(out)), metas[which]())
+        return out
+
+    plan = [(rng.randint(0, 3), rng.randrange(len(metas)), rng.randrange(3)) for _ in range(rng.randint(1, 4))]
+    level = rng.randrange(2)
+    wrap = rng.choice([lambda c: ht.div(c), lambda c: ht.TagList(c), lambda c: ht.span(c, "t"), lambda c: c])
+    plain = str(wrap(Foo(*kids(level, False, plan), title="p")))
+    got = str(wrap(Foo(*kids(level, True, plan), title="p")))
+    ctx.count("oracle.jsx_metadata")
+    if got != plain:
+        ctx.violation("metadata-changes-html:jsx", "metadata nodes among the children of a JSX component change what is written for it",
+                      {"plan": plan, "nested_component": level == 0, "got": got[-900:], "want": plain[-900:]})
+        return False
+    return True
+
+
 def replay(ctx, w):
     pts = [(tuple(p[0]), p[1]) for p in w["points"]]
     check_case(ctx, w["base"], pts, w["makers"], None, w.get("route", "ctor"))
@@ -290,6 +324,8 @@ def run(ctx):
     counter = [0]
     ids = lg.Ids()
     bases = [(b, True) for b in special_bases(ids)]
+    for _ in range(ctx.budget(120, 12000)):
+        ctx.guard(check_jsx_metadata, ctx, rng, witness={"what": "metadata among JSX children"})
     n_rand = ctx.budget(60, 12000)
     sampled = False
     bi = 0
@@ -324,6 +360,14 @@ def run(ctx):
         else:
             subsets = [tuple(sorted(rng.sample(range(n), rng.randint(1, min(n, 6))))) for _ in range(64 if ctx.thorough else 24)]
             ctx.count("bases_with_sampled_subsets")
+        if base["k"] == "tag" and base["name"] in ("html", "body", "head"):
+            # the document's own structure: every single position x every kind of metadata node, one at a time
+            singles = [{"k": "meta"}, {"k": "meta", "sub": True}, {"k": "dep", "name": "da", "version": "1.0", "script": [{"src": "one.js"}]},
+                       {"k": "headc", "c": [gen.TAG("title", gen.T("hc1"))]}]
+            for pt in pts:
+                for mk in singles:
+                    check_case(ctx, base, [pt], [[mk]], base_outs, "ctor")
+                    ctx.count("document_structure_single_insertions")
         for sub in subsets:
             points = [pts[i] for i in sub]
             makers = [meta_maker(rng, counter) for _ in points]
